@@ -35,7 +35,7 @@ man = dict(
     engines=[dict(name="lean4-model+correspondence", path="check", serves_properties=[c["property_id"] for c in checks],
                   kind_free_text="Lean 4 package lean/TPV (models, theorems, axiom audit) + Python correspondence harness harness/*.py driving lean/drivers/*.lean over a line protocol")],
     checks=checks,
-    notes="All checks: ./check <id> --tier quick|thorough; VERIF_SEED honoured; exit 2 = harness trouble. Fix commits in /repo are listed in known_findings.json (fixed).",
+    notes="All checks: ./check <id> --tier quick|thorough; VERIF_SEED honoured; exit 2 = harness trouble. Open findings and the fix: commits made in /repo are listed per property in known_findings.d/Cxx.json (findings / fixed).",
     not_applicable=na,
 )
 json.dump(man, open(os.path.join(VERIF, "MANIFEST.json"), "w"), indent=1)
